@@ -35,7 +35,7 @@ from graphiq.backends.stabilizer.compiler import StabilizerCompiler
 from graphiq.backends.density_matrix.compiler import DensityMatrixCompiler
 from graphiq.solvers.time_reversed_solver import TimeReversedSolver
 from graphiq.solvers.hybrid_solvers import HybridEvolutionarySolver
-from bounded.C01 import build_circuit, snapshot, s3_sensitive, COMPILERS
+from bounded.C01 import build_circuit, snapshot, COMPILERS
 
 S = Suite("C13")
 
@@ -153,15 +153,8 @@ def same_state(backend, a, b, n):
 
 def forced_modes(inp, backend):
     """forced settings under which two compilations of equivalent circuits must give the same state: the result must not
-    depend on the linearisation (node ids change under rewrites) nor, for dm, on rounding at the p=0/1 threshold"""
-    out = []
-    for mode in (0, 1):
-        if not RC.forced_order_independent(inp["prog"]):
-            continue
-        if backend == "dm" and s3_sensitive(inp, mode):
-            continue
-        out.append(mode)
-    return out
+    depend on the linearisation (node ids change under rewrites)"""
+    return [0, 1] if RC.forced_order_independent(inp["prog"]) else []
 
 
 EMPTY_MAP = {k: {} for k in ("e", "p", "ee", "ep", "pe", "pp")}
@@ -295,17 +288,18 @@ S.item("rewrites.sequences_le3_with_grouping", "graphiq.circuit.circuit_dag:Circ
 # ------------------------------------------------------------------ frame of compile
 def compile_frame_case(inp):
     """inp: {"prog", "pseeds", "noisy": bool}.  The circuit handed to compile (noise-free, or the noisy copy made by
-    assign_noise) has the same dump before and after, for both backends / all settings / noise simulation off and on."""
+    assign_noise) has the same dump after every one of the compilations (both backends / all settings / noise simulation
+    off and on, one after the other on the same object) as before the first."""
     spec = inp["prog"]
+    c, _ = build_circuit(spec)
+    if inp["noisy"]:
+        c = c.assign_noise(depol_map())
+    before = circuit_dump(c)
     for backend in ("stabilizer", "dm"):
         for noise in (False, True):
             if inp["noisy"] and (backend == "stabilizer" or not noise):
                 continue  # noisy circuits are compiled with the density-matrix backend, noise simulation on
             for mode, seed in ((0, None), (1, None), ("probabilistic", inp["pseeds"][0])):
-                c, _ = build_circuit(spec)
-                if inp["noisy"]:
-                    c = c.assign_noise(depol_map())
-                before = circuit_dump(c)
                 exc = ""
                 try:
                     compile_plain(c, backend, mode, noise, seed)
@@ -335,8 +329,6 @@ def repeat_case(inp):
     n = RC.n_qubits(spec)
     for backend in ("stabilizer", "dm"):
         for mode in (0, 1):
-            if backend == "dm" and s3_sensitive(inp, mode):
-                continue  # results may be NaN there (C01 finding D2); NaN != NaN
             c, _ = build_circuit(spec)
             comp = COMPILERS[backend]()
             comp.measurement_determinism = mode
@@ -460,9 +452,6 @@ def target_frame(before, target, what):
     return f"{what} changed the caller's target: {d}" if d else None
 
 
-@S.item("TimeReversedSolver.frame", site="graphiq.solvers.time_reversed_solver:TimeReversedSolver.__init__, solve",
-        bound="all labelled graphs on 1..4 vertices (quick: 1..3 + 12 seeded 4-vertex graphs) x target representation in {graph, stabilizer, density matrix} x compiler in {stabilizer, dm}",
-        exhaustive=True, clause="running a solver on a target never changes the behaviour of the target state passed in")
 def trs_case(inp):
     edges, nv, rep, backend = inp
     target = make_target(edges, nv, rep)
@@ -481,9 +470,6 @@ def trs_case(inp):
     return target_frame(before, target, "TimeReversedSolver.solve")
 
 
-@S.item("HybridEvolutionarySolver.frame", site="graphiq.solvers.hybrid_solvers:HybridEvolutionarySolver.__init__, solve",
-        bound="6 connected graphs on 2..4 vertices x target representation in {graph, stabilizer, density matrix}; constructor, then solve with n_pop=4, n_stop=2",
-        clause="running a solver on a target never changes the behaviour of the target state passed in")
 def hybrid_case(inp):
     from graphiq.solvers.evolutionary_solver import EvolutionarySolverSetting
 
@@ -501,6 +487,46 @@ def hybrid_case(inp):
     with contextlib.redirect_stdout(io.StringIO()):
         solver.solve()
     return target_frame(before, target, "HybridEvolutionarySolver.solve")
+
+
+_C_SOLVER = "running a solver on a target never changes the behaviour of the target state passed in"
+S.item("TimeReversedSolver.frame.stabilizer_target", "graphiq.solvers.time_reversed_solver:TimeReversedSolver.__init__, solve",
+       "target handed over in stabilizer representation (cannot hit known finding C13-T1, which needs a graph / density-matrix target): all labelled graphs on 1..3 vertices + (quick: 16, thorough: all 64) labelled graphs on 4 vertices x compiler in {stabilizer, dm}; fixed list, seed-independent",
+       clause=_C_SOLVER)(trs_case)
+S.item("TimeReversedSolver.frame.graph_or_dm_target", "graphiq.solvers.time_reversed_solver:TimeReversedSolver.__init__, solve",
+       "fixed sample, seed-independent (touches known finding C13-T1): 5 graphs (K1, K2, path P3, triangle K3, path P4) x target representation in {graph, density matrix} x compiler in {stabilizer, dm}; same list in both tiers",
+       exhaustive=True, clause=_C_SOLVER)(trs_case)
+S.item("HybridEvolutionarySolver.frame.stabilizer_target", "graphiq.solvers.hybrid_solvers:HybridEvolutionarySolver.__init__, solve",
+       "target handed over in stabilizer representation (cannot hit known finding C13-T1): 6 connected graphs on 2..4 vertices, solver seeds 0..5 (fixed); constructor, then solve with n_pop=4, n_stop=2",
+       clause=_C_SOLVER)(hybrid_case)
+S.item("HybridEvolutionarySolver.frame.graph_or_dm_target", "graphiq.solvers.hybrid_solvers:HybridEvolutionarySolver.__init__, solve (population_initialization builds a TimeReversedSolver on the caller's target)",
+       "fixed sample, seed-independent (touches known finding C13-T1): 3 graphs (K2, P3, K3) x target representation in {graph, density matrix}, solver seed 0; same list in both tiers",
+       exhaustive=True, clause=_C_SOLVER)(hybrid_case)
+
+def alternate_case(inp):
+    from graphiq.solvers.alternate_target_solver import AlternateTargetSolver, AlternateTargetSolverSetting
+
+    edges, nv, rep, lc, seed = inp
+    target = make_target(edges, nv, rep)
+    before = state_dump(target)
+    setting = AlternateTargetSolverSetting(n_iso_graphs=2, n_lc_graphs=2, lc_method=lc)
+    solver = AlternateTargetSolver(target=target, solver_setting=setting, seed=seed)
+    m = target_frame(before, target, "AlternateTargetSolver.__init__")
+    if m:
+        return m
+    with contextlib.redirect_stdout(io.StringIO()):
+        try:
+            solver.solve()
+        except Exception:  # noqa: BLE001 - whether solve succeeds is C10's subject; the frame applies to whatever happened
+            pass
+    return target_frame(before, target, "AlternateTargetSolver.solve")
+
+
+S.item("AlternateTargetSolver.frame", "graphiq.solvers.alternate_target_solver:AlternateTargetSolver.__init__, solve",
+       "6 connected graphs on 2..4 vertices x target representation in {graph, stabilizer, density matrix} x lc_method in {lc_with_iso, random, linear}, n_iso_graphs=n_lc_graphs=2, solver seed 0 (fixed list; the solver builds its own targets for the inner TimeReversedSolver, so known finding C13-T1 is out of reach)",
+       clause=_C_SOLVER)(alternate_case)
+
+T1_GRAPHS = [([], 1), ([[0, 1]], 2), ([[0, 1], [1, 2]], 3), ([[0, 1], [0, 2], [1, 2]], 3), ([[0, 1], [1, 2], [2, 3]], 4)]
 
 
 # ------------------------------------------------------------------ histories of <= 3 calls on the same objects
@@ -556,8 +582,6 @@ def history_case(inp):
         if d:
             return f"after call #{k} {name} of {inp['calls']} the circuit changed: {d}"
     for (b, nz), a in ref.items():
-        if b == "dm" and s3_sensitive(inp, 1):
-            continue
         m = same_state(b, a, snapshot(compile_plain(c, b, 1, noise=nz).rep_data), n)
         if m:
             return f"after {inp['calls']} the circuit compiles ({b}, noise_simulation={nz}) to a different state: {m}"
@@ -657,15 +681,13 @@ def run(tier, seed):
 
     graphs = [(e, nv) for nv in (1, 2, 3) for e in all_graph_edges(nv)]
     g4 = [(e, 4) for e in all_graph_edges(4)]
-    if th:
-        graphs += g4
-    else:
-        rng = np.random.default_rng(seed + 1305)
-        graphs += [g4[int(i)] for i in rng.choice(len(g4), size=12, replace=False)]
-    S.items["TimeReversedSolver.frame"].exhaustive = th
-    S.map("TimeReversedSolver.frame", [[e, nv, rep, b] for (e, nv) in graphs for rep in ("g", "s", "dm") for b in ("stabilizer", "dm")])
+    graphs += g4 if th else g4[::4]  # fixed, quick is a subset of thorough
+    S.map("TimeReversedSolver.frame.stabilizer_target", [[e, nv, "s", b] for (e, nv) in graphs for b in ("stabilizer", "dm")])
+    S.map("TimeReversedSolver.frame.graph_or_dm_target", [[e, nv, rep, b] for (e, nv) in T1_GRAPHS for rep in ("g", "dm") for b in ("stabilizer", "dm")])
     hg = [([[0, 1]], 2), ([[0, 1], [1, 2]], 3), ([[0, 1], [1, 2], [0, 2]], 3), ([[0, 1], [0, 2]], 3), ([[0, 2], [1, 2]], 3), ([[0, 1], [1, 2], [2, 3]], 4)]
-    S.map("HybridEvolutionarySolver.frame", [[e, nv, rep, seed + i] for i, (e, nv) in enumerate(hg) for rep in ("g", "s", "dm")])
+    S.map("HybridEvolutionarySolver.frame.stabilizer_target", [[e, nv, "s", i] for i, (e, nv) in enumerate(hg)])
+    S.map("AlternateTargetSolver.frame", [[e, nv, rep, lc, 0] for (e, nv) in hg for rep in ("g", "s", "dm") for lc in ("lc_with_iso", "random", "linear")])
+    S.map("HybridEvolutionarySolver.frame.graph_or_dm_target", [[e, nv, rep, 0] for (e, nv) in T1_GRAPHS[1:4] for rep in ("g", "dm")])
 
     Mh = 2 if th else 1
     hseqs = [list(s) for k in (1, 2, 3) for s in itertools.product(CALLS, repeat=k)]
@@ -675,5 +697,4 @@ def run(tier, seed):
         S.items[nm_].bound = S.items[nm_].bound.replace("{M}", str(Mh))
         S.map(nm_, [h for h in hin if any(c in _KNOWN_MUTATORS for c in h["calls"]) == sel])
     S.note("frames are compared on value dumps (op classes, registers, params, labels, noise model classes and parameters, DAG edges, register tables, openQASM text, identity and order of the op objects); caches (_register_depth) are excluded")
-    S.note("forced-mode state comparisons are skipped for dm where the forced choice sits on a rounding-affected threshold (C01 finding D2)")
     return S
